@@ -507,6 +507,24 @@ def run_family(ctx, case, grid=None, report=None):
             if worst:
                 break
         ctx.count("family_%s_exact_to_%d" % (fam, maxdeg))
+        if grid is not None and not worst and dim == 1 and fam in ("highorder", "lagrange", "bspline"):
+            # the re-used object against a fresh one on the same grid: weights and the integral of a non-polynomial table function
+            if fam == "highorder":
+                g2 = G.GlobalHighOrderGrid(af, bf, boundary=bd, modified_basis=md)
+            elif fam == "lagrange":
+                g2 = G.GlobalLagrangeGrid(af, bf, boundary=bd, modified_basis=md, p=p)
+            else:
+                g2 = G.GlobalBSplineGrid(af, bf, boundary=bd, modified_basis=md, p=p)
+            g2.set_grid([list(x) for x in ptsf], [list(x) for x in lv])
+            w1 = [float(x) for x in g.weights[0]]
+            w2 = [float(x) for x in g2.weights[0]]
+            tabv = {float(c): float(((7 * i) % 11) - 5) / 4.0 for i, c in enumerate(g.coordinate_array[0])}
+            i1 = scalar(g.integrate(Table([tabv]), levelvec, af, bf))
+            i2 = scalar(g2.integrate(Table([tabv]), levelvec, af, bf))
+            vol = float(b[0] - a[0])
+            if w1 != w2 or not close(i1, i2, TOL_HIER, 4.0 * vol):
+                ok = False
+                viol("family-reused-vs-fresh", tags, {"weights_reused": w1[:12], "weights_fresh": w2[:12], "integrate_reused": i1, "integrate_fresh": i2})
     except Exception as e:
         if fam == "simpson":
             ctx.count("simpson_observed_" + type(e).__name__)   # outside the anchored families: recorded only
@@ -683,6 +701,53 @@ def build_from_order(rng, a, b, order, weighted):
     return [p for p, _ in pts], [l for _, l in pts]
 
 
+def gen_order_directed(rng, n, side, maxdepth):
+    """split order with exactly n points (if the depth allows), graded towards a (side 'L'), towards b ('R') or undirected ('M')"""
+    lv = [0, 0]
+    order = []
+    guard = 0
+    while len(lv) < n and guard < 20 * n:
+        guard += 1
+        cells = list(range(len(lv) - 1))
+        depth = [max(lv[i], lv[i + 1]) for i in cells]
+        cand = [k for k in cells if depth[k] + 1 <= maxdepth]
+        if not cand:
+            break
+        r = rng.random()
+        if side == "L" and r < 0.6:
+            i = cand[0]
+        elif side == "R" and r < 0.6:
+            i = cand[-1]
+        else:
+            i = rng.choice(cand)
+        order.append(i)
+        lv.insert(i + 1, depth[i] + 1)
+    return order
+
+
+def gen_history_equal_size(rng, thorough):
+    """hierarchical families: ONE grid object, successive refinement trees with the SAME number (15-33) of points but different
+    shapes (graded towards a, towards b, other split weights), then the first tree again -- whatever the object or its
+    hierarchisation remembers per point count / per dimension must not leak from one tree into the next"""
+    fam, p = rng.choice([("lagrange", 1), ("lagrange", 2), ("lagrange", 3), ("bspline", 1), ("bspline", 3), ("highorder", 0)])
+    dom = rng.choice(DOMAINS)
+    n = rng.randint(15, 33 if fam != "bspline" else 25)
+    sides = ["L", "R", "M"]
+    rng.shuffle(sides)
+    trees = []
+    for side in sides:
+        order = gen_order_directed(rng, n, side, 10)
+        weighted = (side == "M")
+        trees.append((side + ("-weighted" if weighted else "-dyadic"), build_from_order(rng, dom[0], dom[1], order, weighted=weighted)))
+    trees.append(("first-tree-again", trees[0][1]))
+    steps = []
+    for name, (pts, lv) in trees:
+        steps.append({"step": "equal-size-" + name,
+                      "dims": [{"a": frac_str(dom[0]), "b": frac_str(dom[1]), "pts": [frac_str(x) for x in pts], "levels": lv}]})
+    return {"kind": "history", "family": fam, "p": p, "boundary": 1, "modified": 0, "dim": 1, "equal_size": n,
+            "a": frac_str(dom[0]), "b": frac_str(dom[1]), "steps": steps}
+
+
 def gen_history(rng, thorough):
     """ONE grid object, several set_grid calls: same levels with different points (shared split order, other ratios), same points
     with different levels, different trees; the library re-uses its grid object in exactly this way for all component grids"""
@@ -810,7 +875,9 @@ def run(ctx):
                 "(p in 1,2,3,5) are checked by the oracle only (constants, linear, degree p when the tree is complete to the required level); "
                 "object histories: ONE grid object re-used for 3-6 set_grid calls (same level labels with different points via a shared split "
                 "order with other ratios, same points with other levels, other trees; also 2-D grids whose two dimensions share interval and "
-                "level labels), every step checked like a single case (model, fresh object, plIntegral, linear exactness) for all families. "
+                "level labels), every step checked like a single case (model, fresh object, plIntegral, linear exactness) for all families; "
+                "equal-size histories for the hierarchical / high-order families: 15-33 points, three trees of the SAME size graded towards a, "
+                "towards b, undirected with other split weights, then the first tree again, each step against exact moments and a fresh object. "
                 "A case is distinct by its full input; non-trivial if it has >= 4 points or is malformed")
     ctx.assumptions.append("GlobalHighOrderGrid / GlobalLagrangeGrid / GlobalBSplineGrid: no exact Lean model; validated by the oracle at %g" % TOL_HIER)
     ctx.assumptions.append("'enough points' for order p: tree complete to level max(1,p-1) (Lagrange: basis of level l has degree min(l+1,p)) resp. ceil(log2(p+1)) (B-spline: the code's own switch)")
@@ -836,7 +903,7 @@ def run(ctx):
         elif kind == "trap2d":
             case = gen_trap2d(rng)
         elif kind == "history":
-            case = gen_history(rng, thorough)
+            case = gen_history_equal_size(rng, thorough) if rng.random() < 0.12 else gen_history(rng, thorough)
         else:
             case = gen_family_case(rng, thorough)
         try:
@@ -855,7 +922,7 @@ def run(ctx):
             ctx.count("trap2d_shared_shape" if case.get("shared_shape") else "trap2d")
             nontrivial = True
         elif kind == "history":
-            ctx.count("history_%s_b%d_m%d_dim%d" % (case["family"], case["boundary"], case["modified"], case["dim"]))
+            ctx.count("history_%s_b%d_m%d_dim%d%s" % (case["family"], case["boundary"], case["modified"], case["dim"], "_equal_size" if case.get("equal_size") else ""))
             nontrivial = True
         else:
             ctx.count("family_%s_p%s_b%d_m%d" % (case["family"], case["p"], case["boundary"], case["modified"]))
